@@ -14,6 +14,13 @@
  *   G:<ms>                       fork a grandchild that inherits stdout/stderr (closes stdin), writes nothing, sleeps
  *                                <ms> (at most 30 s) and exits: a lingering holder of the pipe write ends
  *   Y:<fd>:<period_ms>           for ever: write 4 PRNG bytes to fd 1 or 2, sleep <period_ms> (a ticking child)
+ *   H:<fd>:<n>:<ms>              survive SIGTERM (handler that only notes it), wait until the first SIGTERM has arrived,
+ *                                sleep <ms>, then write n PRNG bytes to fd 1 or 2 (output placed relative to the parent's
+ *                                SIGTERM, i.e. inside its grace period); later SIGTERMs are still survived
+ *
+ * C:<fd> may appear anywhere in a script, for any subset and order of 0, 1, 2.  Later ops must not use a closed
+ * descriptor (the harness never emits that); the receipt file is opened, written and closed in one go, so it does not
+ * matter that it temporarily reuses a closed standard descriptor number.
  *
  * The receipt file holds "<bytes read from stdin> <fnv1a-64 of them, hex> <eof seen 0/1> <note>\n"; it is rewritten
  * after every R/E op and before X/K/end, so stdin delivery is judged by the child's own account.
@@ -112,6 +119,12 @@ static void write_all(int fd, const unsigned char* p, size_t n) {
 }
 
 static unsigned char buf[1 << 16];
+
+static volatile sig_atomic_t got_term = 0;
+static void on_term(int sig) {
+  (void)sig;
+  got_term = 1;
+}
 
 int main(int argc, char** argv) {
   /* never outlive the process that started us */
@@ -238,6 +251,21 @@ int main(int argc, char** argv) {
       case 'T':
         signal(SIGTERM, SIG_IGN);
         break;
+      case 'H': {
+        int fd = (int)a[0];
+        if (fd != 1 && fd != 2) return 96;
+        struct sigaction sa;
+        memset(&sa, 0, sizeof(sa));
+        sa.sa_handler = on_term;
+        sigemptyset(&sa.sa_mask);
+        sigaction(SIGTERM, &sa, NULL);
+        while (!got_term) msleep_us(2000);
+        msleep_us((long)a[2] * 1000L);
+        size_t c = (size_t)a[1] < sizeof(buf) ? (size_t)a[1] : sizeof(buf);
+        gen(&streams[fd], buf, c);
+        write_all(fd, buf, c);
+        break;
+      }
       case 'G': {
         pid_t g = fork();
         if (g == 0) {
